@@ -1,3 +1,2 @@
--- Root of the EgVerif library: models, specs, proofs and property theorems.
+-- Root of the EgVerif library. Targets are built per property (see bin/setup.sh).
 import EgVerif.Audit.Tool
-import EgVerif.Model.RateLimiter
